@@ -149,6 +149,56 @@ def reading_env(revent):
     return env, clash
 
 
+def term_readings(expr, names):
+    """Every way of giving each probability term of expr its own value (0 / 1, written as the marks - / +) for the
+    unmarked variables in `names`: yields (choice, rewritten expression)."""
+    from y0.dsl import Distribution, Fraction, PopulationProbability, Probability, Product, Sum, Variable
+
+    leaves = []
+
+    def collect(e):
+        if isinstance(e, Probability):
+            here = sorted({v.name for v in itt.chain(e.children, e.parents) if v.name in names and v.star is None})
+            if here:
+                leaves.append((e, here))
+        elif isinstance(e, Product):
+            for f in e.expressions:
+                collect(f)
+        elif isinstance(e, Fraction):
+            collect(e.numerator)
+            collect(e.denominator)
+        elif isinstance(e, Sum):
+            collect(e.expression)
+
+    collect(expr)
+    slots = [(i, n) for i, (_, here) in enumerate(leaves) for n in here]
+
+    def rebuild(e, assign, counter):
+        if isinstance(e, Probability):
+            idx = None
+            for i, (leaf, _) in enumerate(leaves):
+                if leaf is e and i not in counter:
+                    idx = i
+                    counter.add(i)
+                    break
+            if idx is None:
+                return e
+            mark = lambda v: Variable(v.name, star=bool(assign[(idx, v.name)])) if (idx, v.name) in assign and v.star is None and type(v) is Variable else v
+            d = Distribution(children=tuple(mark(v) for v in e.children), parents=tuple(mark(v) for v in e.parents))
+            return PopulationProbability(population=e.population, distribution=d) if isinstance(e, PopulationProbability) else Probability(d)
+        if isinstance(e, Product):
+            return Product(tuple(rebuild(f, assign, counter) for f in e.expressions))
+        if isinstance(e, Fraction):
+            return Fraction(rebuild(e.numerator, assign, counter), rebuild(e.denominator, assign, counter))
+        if isinstance(e, Sum):
+            return Sum(rebuild(e.expression, assign, counter), e.ranges)
+        return e
+
+    for vals in itt.product((0, 1), repeat=len(slots)):
+        assign = dict(zip(slots, vals))
+        yield assign, rebuild(expr, assign, set())
+
+
 def vocab(g, domains):
     nodes = set(g.nodes)
     pops = {POPS[k] for k in range(len(domains))}
@@ -186,7 +236,37 @@ def check_case(g, ev, domains, expr, revent, timeout_ms, delta=()):
         return out
     env, clash = reading_env(revent)
     if clash & free_cp_names(expr):
-        out["violation"] = {"kind": "unevaluable", "why": f"the returned event gives {sorted(clash)} two different values, so the returned expression (all variables unmarked) has no single reading"}
+        # The expression has no single reading (known finding D12).  It is attributed to that finding only if SOME
+        # per-term choice of the two values makes it right (a defect of notation); if no choice does, the answer
+        # itself is wrong - e.g. an answer for a query that is not transportable - and stays a violation.
+        ok_reading = None
+        tried = 0
+        for choice, variant in term_readings(expr, clash & free_cp_names(expr)):
+            tried += 1
+            if tried > 64:
+                ok_reading = "not decided (more than 64 readings)"
+                break
+            stray_v = sorted(free_cp_names(variant) - set(env))
+            good = True
+            for vals in itt.product((0, 1), repeat=len(stray_v)):
+                env2 = dict(env)
+                env2.update(zip(stray_v, vals))
+                try:
+                    lhs = den.ev(variant, env2, env2)
+                except Unsupported:
+                    good = False
+                    break
+                verdict, _, dt = Decider(model.constraints, timeout_ms, model.params).differ(lhs, truth)
+                out["queries"] += 1
+                out["secs"] += dt
+                out[verdict] += 1
+                if verdict != "unsat":
+                    good = False
+                    break
+            if good:
+                ok_reading = str(variant)
+                break
+        out["violation"] = {"kind": "unevaluable", "some_reading_correct": ok_reading, "why": f"the returned event gives {sorted(clash)} two different values, so the returned expression (all variables unmarked) has no single reading" + (f"; read term by term as {ok_reading} it is right" if ok_reading else "; and no term-by-term choice of the two values makes it equal to the query's probability")}
         return out
     stray = sorted(free_cp_names(expr) - set(env))
     # unmarked variables that the returned event does not fix: the value must not depend on them (all values tried)
@@ -332,8 +412,10 @@ def jobs_for(t):
         for g in family(3, labellings=("fwd",), n_min=3):
             add(g, cond(g, 37, seed()))
         for g in family(2, labellings=("fwd",)):
-            add(g, one(g, events(g.nodes, 2, 1)))
-            add(g, one(g, events(g.nodes, 2, 1), stride=7, offset=seed(), all_events=True))
+            # every event, including those whose subscripts contradict an event value (P(Y_x = y, X = x'), the effect
+            # of treatment on the treated): an answer with an ambiguous reading is attributed to the known notation
+            # finding only if some term-by-term reading is right
+            add(g, one(g, events(g.nodes, 2, 1), all_events=True))
         for g in family(3, labellings=("fwd",), n_min=3):
             add(g, one(g, events(g.nodes, 2, 1), stride=29, offset=seed()))
             add(g, two(g, events(g.nodes, 1, 1), stride=499, offset=seed()))
@@ -414,9 +496,9 @@ def run() -> int:
             if v["kind"] == "noreplay":
                 rep.harness_errors.append(f"sat model did not replay for {key}")
                 continue
-            keys = [key] + ([D12_KEY] if v["kind"] == "unevaluable" else [])
+            keys = [key] + ([D12_KEY] if v["kind"] == "unevaluable" and v.get("some_reading_correct") else [])
             atoms = ev_from_json(r["ev"]) + ev_from_json(r.get("delta") or [])
-            if v["kind"] in ("wrong", "zero_for_possible_event") and any(dict(s_).get(a) == val for a, s_, val in atoms):
+            if v["kind"] in ("wrong", "zero_for_possible_event", "unevaluable") and any(dict(s_).get(a) == val for a, s_, val in atoms):
                 keys.append(REFL_KEY)  # SIMPLIFY turns the tautology V_v = v into the factual event V = v (C19 finding)
             if v["kind"] == "wrong" and r.get("sum_binds_event"):
                 keys.append(SUMEV_KEY)
@@ -427,7 +509,7 @@ def run() -> int:
             by_base = {}
             for a, s_, _ in atoms:
                 by_base.setdefault(a, set()).add(tuple(sorted(s_)))
-            if v["kind"] == "wrong" and any(len(w) > 1 for w in by_base.values()):
+            if v["kind"] in ("wrong", "unevaluable") and any(len(w) > 1 for w in by_base.values()):
                 keys.append(WORLDS_KEY)  # e.g. B and B_a: the factors of both collapse into one unmarked term
             what = f"ctfTRu returned {short(r['est'], 140)} with event {short(r['revent'], 80)} for {key}: " + (f"value {v['est']} != P*(query) = {v['truth']} (reading {v['env']})" if v["kind"] == "wrong" else v["why"])
             rep.add_violation(Violation(PROP, keys, what, dict(base, est_seen=r["est"], **v)))
